@@ -6,6 +6,7 @@ package harness
 
 import (
 	"fmt"
+	"strings"
 	"testing"
 
 	"github.com/trustbloc/sidetree-go/pkg/api/protocol"
@@ -85,6 +86,10 @@ func TestC09_Window(t *testing.T) {
 		// state: a valid create
 		ctx := &opGenCtx{P: p, St: st, NoIetf: true, Classes: []string{"valid"}}
 		cr := genOpCase(t, "create", ctx)
+		if strings.Contains(cr.Class, "too-large") {
+			st.Exclude("generated delta larger than the drawn maximum delta size")
+			return
+		}
 		suffix := cr.Build.suffixFor(p.MultihashAlgorithms[0])
 		m0 := anchorMeta{Time: 0, Canonical: "c0"}
 		ref0, _ := refApply(&refModel{}, cr, m0, p)
@@ -100,6 +105,10 @@ func TestC09_Window(t *testing.T) {
 		ctx2 := &opGenCtx{P: p, Doc: ref0.Doc, Suffix: suffix, Keys: chainKeys{Update: cr.Build.NextUpdate, Recovery: cr.Build.NextRecov},
 			St: st, NoIetf: true, Classes: []string{"valid"}}
 		c := genOpCase(t, typ, ctx2)
+		if strings.Contains(c.Class, "too-large") {
+			st.Exclude("generated delta larger than the drawn maximum delta size")
+			return
+		}
 		// rebuild with the drawn window
 		switch typ {
 		case "update":
